@@ -124,18 +124,20 @@ class Container(typing.Generic[Symbol]):
                 for field in dsl.Column.dissect(*feature):
                     self[field.origin].fields.add(field)
 
-            def filter(self, expression: 'dsl.Predicate') -> None:
+            def filter(self, expression: 'dsl.Predicate', exclude: typing.Collection['dsl.Table'] = ()) -> None:
                 """Extract predicate factors from given expression and register them into segments
                 of their relevant tables. Also register the whole expression using :attr:`select`.
 
                 Args:
                     expression: Expression to be extracted and registered.
+                    exclude: Tables whose factors must not be registered as row filters.
                 """
                 self.select(expression)
                 if not isinstance(expression, dsl.Predicate):  # bare boolean column/literal has no factors
                     return
                 for table, factor in expression.factors.items():
-                    self[table].factors.add(factor)
+                    if table not in exclude:
+                        self[table].factors.add(factor)
 
         def __init__(self):
             self.symbols: Container.Context.Symbols = self.Symbols()
@@ -538,12 +540,29 @@ class Visitor(
         left = self.context.symbols.pop()
         self.context.symbols.push(self.generate_set(left, right, source.kind))
 
+    @classmethod
+    def _padded(cls, source: 'dsl.Source') -> frozenset['dsl.Table']:
+        """Tables whose rows can be null-padded by an outer join within the given source."""
+        if not isinstance(source, dsl.Join):
+            return frozenset()
+
+        def tables(side: 'dsl.Source') -> frozenset['dsl.Table']:
+            return frozenset(f.origin for f in dsl.Column.dissect(*side.features))
+
+        padded = cls._padded(source.left) | cls._padded(source.right)
+        if source.kind in {dsl.Join.Kind.LEFT, dsl.Join.Kind.FULL}:
+            padded |= tables(source.right)
+        if source.kind in {dsl.Join.Kind.RIGHT, dsl.Join.Kind.FULL}:
+            padded |= tables(source.left)
+        return padded
+
     @bypass(resolve_source)
     def visit_query(self, source: 'dsl.Query') -> None:
         with self:
             self.context.tables.select(*source.features)
             if source.prefilter is not None:
-                self.context.tables.filter(source.prefilter)
+                # filtering a null-supplied table below its outer join turns matched rows into null-padded ones
+                self.context.tables.filter(source.prefilter, exclude=self._padded(source.source))
             if source.postfilter is not None:
                 self.context.tables.select(source.postfilter)
             self.context.tables.select(*source.grouping)
